@@ -29,7 +29,13 @@ def seeded_table(pattern='C??-m?'):
             vs = 'front end rejects the changed function with its annotations → undecided'
             n['unread'] += 1
         elif st.startswith('proof-internal'):
-            vs = 'proof-internal failure → undecided'
+            und = c.get('undecided') or []
+            if any(u.endswith('#front-end') for u in und):
+                vs = 'front end rejects the changed function with its annotations → that function undecided, rest of the unit verified'
+            elif any('#outside-contracts' in u for u in und):
+                vs = 'change is outside the contracts (new item / derive list) → undecided'
+            else:
+                vs = 'proof-internal failure → undecided'
             n['unread'] += 1
         else:
             vs = 'still verifies' if st else '?'
